@@ -2,6 +2,7 @@ package vivid
 
 import (
 	"fmt"
+	"reflect"
 	"time"
 
 	"github.com/kercylan98/vivid/internal/messages"
@@ -106,14 +107,55 @@ type OnKill struct {
 	Poison bool     // 是否采用毒杀模式，true 时立即销毁，不处理剩余队列，false 时常规优雅下线。
 }
 
-func onKillReader(message any, reader *messages.Reader, codec messages.Codec) error {
+func onKillReader(message any, reader *messages.Reader, codec messages.Codec) (err error) {
 	m := message.(*OnKill)
-	return reader.ReadInto(&m.Killer, &m.Reason, &m.Poison)
+	if m.Killer, err = readActorRef(reader); err != nil {
+		return err
+	}
+	return reader.ReadInto(&m.Reason, &m.Poison)
 }
 
 func onKillWriter(message any, writer *messages.Writer, codec messages.Codec) error {
 	m := message.(*OnKill)
-	return writer.WriteFrom(m.Killer, m.Reason, m.Poison)
+	if err := writeActorRef(writer, m.Killer); err != nil {
+		return err
+	}
+	return writer.WriteFrom(m.Reason, m.Poison)
+}
+
+// actorRefFactory 由 Actor 实现层注册，用于在反序列化时根据地址与路径重建 ActorRef。
+var actorRefFactory func(address, path string) (ActorRef, error)
+
+// RegisterActorRefFactory 注册 ActorRef 的构造函数，使携带 ActorRef 字段的内置消息（OnKill、OnKilled）可以跨网络传输。
+func RegisterActorRefFactory(factory func(address, path string) (ActorRef, error)) {
+	actorRefFactory = factory
+}
+
+// writeActorRef 以（地址、路径）两个字符串写入 ActorRef，nil 写为空串。
+// ActorRef 的实现没有可导出字段，无法由反射写入器编码，接口类型也无法由反射读取器解码。
+func writeActorRef(writer *messages.Writer, ref ActorRef) error {
+	var address, path string
+	if ref != nil {
+		if rv := reflect.ValueOf(ref); !(rv.Kind() == reflect.Ptr && rv.IsNil()) {
+			address, path = ref.GetAddress(), ref.GetPath()
+		}
+	}
+	return writer.WriteFrom(address, path)
+}
+
+// readActorRef 读取 writeActorRef 写入的 ActorRef。
+func readActorRef(reader *messages.Reader) (ActorRef, error) {
+	var address, path string
+	if err := reader.ReadInto(&address, &path); err != nil {
+		return nil, err
+	}
+	if address == "" && path == "" {
+		return nil, nil
+	}
+	if actorRefFactory == nil {
+		return nil, fmt.Errorf("no actor ref factory registered, cannot decode actor ref %s%s", address, path)
+	}
+	return actorRefFactory(address, path)
 }
 
 // Pong 表示 Ping 消息的响应。
@@ -162,14 +204,15 @@ type OnKilled struct {
 	Ref ActorRef // 被终止的 ActorRef
 }
 
-func onKilledReader(message any, reader *messages.Reader, codec messages.Codec) error {
+func onKilledReader(message any, reader *messages.Reader, codec messages.Codec) (err error) {
 	m := message.(*OnKilled)
-	return reader.ReadInto(&m.Ref)
+	m.Ref, err = readActorRef(reader)
+	return err
 }
 
 func onKilledWriter(message any, writer *messages.Writer, codec messages.Codec) error {
 	m := message.(*OnKilled)
-	return writer.WriteFrom(m.Ref)
+	return writeActorRef(writer, m.Ref)
 }
 
 type StreamEvent any
